@@ -327,11 +327,13 @@ fn entry(e: u32, a: usize, b: usize, w: u32, src: &mut Src) -> Result<&'static s
                 }
                 38..=43 => {
                     // mismatch in n, m1 or m2
-                    let which = src.below(3);
+                    let which = src.below(4);
                     let (yn, ym1, ym2) = match which {
                         0 => (n2.max(m1.max(m2) + 1), m1, m2),
                         1 => (n, (m1 + 1 + src.usize_below(2)) % (n + 2), m2),
-                        _ => (n, m1, (m2 + 1 + src.usize_below(2)) % (n + 2)),
+                        2 => (n, m1, (m2 + 1 + src.usize_below(2)) % (n + 2)),
+                        // same size and same total bandwidth, different split (the compact storage has the same shape)
+                        _ => if m2 >= 1 { (n, m1 + 1, m2 - 1) } else if m1 >= 1 { (n, m1 - 1, m2 + 1) } else { (n, m1 + 1, m2) },
                     };
                     let y = band(src, yn, ym1, ym2);
                     let bad = (yn, ym1, ym2) != (n, m1, m2);
